@@ -235,6 +235,19 @@ func schemaRoute() *fakeMD {
 	)
 }
 
+// schemaTyped: schemaRoute's fields plus a field whose JSON name differs from its proto name and
+// a bool, for the typed path-variable harness.
+func schemaTyped() *fakeMD {
+	sub := newFakeMD("vf.Sub", strField("k"), strField("c"))
+	return newFakeMD("vf.ReqT",
+		strField("f"), strField("g"),
+		&fakeFD{name: "h", kind: protoreflect.MessageKind, msg: sub},
+		&fakeFD{name: "i", kind: protoreflect.Int32Kind},
+		&fakeFD{name: "long_name", json: "longName", kind: protoreflect.StringKind},
+		&fakeFD{name: "bo", kind: protoreflect.BoolKind},
+	)
+}
+
 // schemaBody / schemaOut: request and reply types with DIFFERENT field sets, so that a selector
 // resolved against the wrong descriptor is visible.
 func schemaBody() *fakeMD {
@@ -314,12 +327,32 @@ func (m *fakeMsg) ProtoReflect() protoreflect.Message         { return m }
 func (m *fakeMsg) Interface() protoreflect.ProtoMessage       { return m }
 func (m *fakeMsg) Descriptor() protoreflect.MessageDescriptor { return m.md }
 func (m *fakeMsg) IsValid() bool                              { return m != nil }
+
+// Has has proto3 semantics: a singular scalar field without presence is populated only when it
+// holds a non-zero value (so a field explicitly set to its zero value reads as not populated).
 func (m *fakeMsg) Has(fd protoreflect.FieldDescriptor) bool {
 	n := string(fd.Name())
-	_, a := m.vals[n]
+	v, a := m.vals[n]
 	_, b := m.subs[n]
 	_, c := m.lists[n]
-	return a || b || c
+	if a {
+		switch fd.Kind() {
+		case protoreflect.StringKind:
+			return v.String() != ""
+		case protoreflect.BytesKind:
+			return len(v.Bytes()) != 0
+		case protoreflect.BoolKind:
+			return v.Bool()
+		case protoreflect.EnumKind:
+			return v.Enum() != 0
+		case protoreflect.Int32Kind, protoreflect.Int64Kind, protoreflect.Sint32Kind, protoreflect.Sint64Kind, protoreflect.Sfixed32Kind, protoreflect.Sfixed64Kind:
+			return v.Int() != 0
+		case protoreflect.Uint32Kind, protoreflect.Uint64Kind, protoreflect.Fixed32Kind, protoreflect.Fixed64Kind:
+			return v.Uint() != 0
+		}
+		return true
+	}
+	return b || c
 }
 
 // own panics like dynamicpb / generated messages when fd belongs to another message descriptor.
